@@ -6,55 +6,70 @@ From Srtla Require Export Conn Run_Core.
 (** what the sender "still remembers": an independent copy of the tracking rule of the
     property text (same number, <= 5 s old, not displaced by a colliding newer number,
     link still present) *)
-Record mem := { m_ids : list Z; m_trk : list (Z * (Z * Z * Z)) }.
+Record mem := { m_ids : list Z; m_trk : tracker }.
 
+Fixpoint pos_of (id : Z) (l : list Z) (i : nat) : option nat :=
+  match l with [] => None | x :: t => if x =? id then Some i else pos_of id t (S i) end.
 Definition remembered (m : mem) (seq now : Z) : option nat :=
   match trk_get (m_trk m) seq now with
-  | Some id =>
-    (fix pos (l : list Z) (i : nat) := match l with [] => None | x :: t => if x =? id then Some i else pos t (S i) end) (m_ids m) O
+  | Some id => pos_of id (m_ids m) O
   | None => None
   end.
 
-Definition lchanged (x y : lobs) : bool :=
-  negb ((o_nakcount x =? o_nakcount y) && (o_window x =? o_window y) && zlist_eqb (o_keys x) (o_keys y) &&
-        (o_inflight x =? o_inflight y)).
+(** the accounting view of a link: loss count, window, in-flight set and count *)
+Definition lsame (x y : lobs) : bool :=
+  (o_nakcount x =? o_nakcount y) && (o_window x =? o_window y) && zlist_eqb (o_keys x) (o_keys y) &&
+  (o_inflight x =? o_inflight y).
+Definition all_unchanged (p n : obs) : bool := forall2b lsame p n.
+Definition others_unchanged (j : nat) (p n : obs) : bool :=
+  forall_idx (fun k x y => Nat.eqb k j || lsame x y) O p n.
 
+(** exactly one loss count (saturating at i32::MAX), one window decrement of 100 floored
+    at 1000, one in-flight slot *)
+Definition exact_charge (seq : Z) (x y : lobs) : bool :=
+  (o_nakcount y =? sat_add_i32 (o_nakcount x) 1) &&
+  (o_window y =? Z.max (o_window x - 100) 1000) &&
+  zlist_eqb (o_keys y) (filter (fun k => negb (k =? seq)) (o_keys x)) &&
+  (o_inflight y =? o_inflight x - 1).
+
+Definition nak_ok (m : mem) (seq now : Z) (p n : obs) : bool :=
+  all_unchanged p n ||
+  existsb (fun j =>
+     let x := nth j p ([], []) in let y := nth j n ([], []) in
+     others_unchanged j p n && existsb (Z.eqb seq) (o_keys x) && exact_charge seq x y &&
+     match remembered m seq now with Some k => Nat.eqb k j | None => true end)
+    (List.seq 0%nat (length p)).
+
+(** diagnostics only: which clause failed.  1 more than one link changed, 2 the changed link did
+    not hold the number, 3 charge not exact, 4 remembered owner exists but another link was charged *)
 Fixpoint changed_idx (i : nat) (p n : obs) : list nat :=
   match p, n with
-  | x :: p', y :: n' => (if lchanged x y then [i] else []) ++ changed_idx (S i) p' n'
+  | x :: p', y :: n' => (if lsame x y then [] else [i]) ++ changed_idx (S i) p' n'
   | _, _ => []
   end.
-
-(** clauses: 1 more than one link changed, 2 changed link did not hold the number,
-    3 charge not exact, 4 remembered owner exists but another link was charged,
-    5 unknown / repeated NAK changed something (covered by 2), 6 shape *)
-Definition c05_nak (m : mem) (seq now : Z) (p n : obs) : N :=
-  if negb (Nat.eqb (length p) (length n)) then 6%N else
+Definition nak_clause (m : mem) (seq now : Z) (p n : obs) : N :=
   match changed_idx O p n with
-  | [] => 0%N
   | [j] =>
     let x := nth j p ([], []) in let y := nth j n ([], []) in
     if negb (existsb (Z.eqb seq) (o_keys x)) then 2%N
-    else if negb ((o_nakcount y =? o_nakcount x + 1) &&
-                  (o_window y =? Z.max (o_window x - 100) 1000) &&
-                  zlist_eqb (o_keys y) (filter (fun k => negb (k =? seq)) (o_keys x)) &&
-                  (o_inflight y =? o_inflight x - 1)) then 3%N
-    else match remembered m seq now with
-         | Some k => if Nat.eqb k j then 0%N else 4%N
-         | None => 0%N
-         end
+    else if negb (exact_charge seq x y) then 3%N else 4%N
   | _ => 1%N
   end.
 
 Definition mon_C05 : monitor mem :=
   {| m_init := fun ids _ => ({| m_ids := ids; m_trk := [] |}, 0%N);
      m_step := fun m o p n =>
+       if negb (Nat.eqb (length p) (length n)) then (m, 6%N) else
        match o with
        | OTrack i seq now =>
-         ({| m_ids := m_ids m; m_trk := trk_insert (m_trk m) seq (nth i (m_ids m) 0) now |}, 0%N)
+         (match nth_error (m_ids m) i with
+          | Some id => {| m_ids := m_ids m; m_trk := trk_insert (m_trk m) seq id now |}
+          | None => m end, 0%N)
        | ORemoveConn i =>
-         ({| m_ids := m_ids m; m_trk := trk_remove_conn (m_trk m) (nth i (m_ids m) 0) |}, 0%N)
-       | ONak seq now => (m, c05_nak m seq now p n)
+         (match nth_error (m_ids m) i with
+          | Some id => {| m_ids := m_ids m; m_trk := trk_remove_conn (m_trk m) id |}
+          | None => m end, 0%N)
+       | ONak seq now => (m, if nak_ok m seq now p n then 0%N else nak_clause m seq now p n)
        | _ => (m, 0%N)
        end |}.
 
